@@ -77,6 +77,8 @@ pub struct FinalInfo {
     /// sequential engine: (class, site, message) of model mismatches
     pub seq_violations: Vec<(String, String, String)>,
     pub seq_calls: u64,
+    /// what the queue's own allocate() handed out and never got back (type, bytes)
+    pub seam_survivors: Vec<(String, usize)>,
 }
 
 pub struct RunOutcome {
@@ -136,6 +138,9 @@ fn cur() -> usize {
 fn api<R>(op: OpK, h: u32, stream: u32, val: u64, serial: u32, f: impl FnOnce() -> R) -> (usize, R) {
     let task = cur();
     let idx = hist::invoke(task, op, h, stream, val, serial);
+    if rt::with(|r| r.trace.get()) {
+        eprintln!("  >> t{} {}(h{}) invoked", task, op.name(), h);
+    }
     rt::with(|r| r.in_api[task].set(r.in_api[task].get() + 1));
     let saved = rt::galloc::set_attr(true);
     let r = f();
@@ -217,6 +222,7 @@ struct Ctx {
     handles: BTreeMap<u32, Handle>,
     rng: Rng,
     children: Vec<Join>,
+    cycle: u32,
 }
 
 fn spawn_thread(sh: &Arc<Shared>, idx: usize, hs: Vec<Handle>) -> Join {
@@ -245,6 +251,7 @@ impl Ctx {
             handles: BTreeMap::new(),
             rng: Rng::new(seed),
             children: Vec::new(),
+            cycle: 0,
         }
     }
 
@@ -342,7 +349,7 @@ impl Ctx {
             Op::IntoMulti { h } => {
                 if let Some(hd) = self.handles.remove(h) {
                     if !hd.k.is_uni() {
-                        harness_error(format!("into_multi on {}", hd.k.kind()));
+                        // the earlier into_single did not succeed: nothing to convert back
                         self.handles.insert(*h, hd);
                         return;
                     }
@@ -409,6 +416,30 @@ impl Ctx {
             Op::Yield(k) => {
                 for _ in 0..*k {
                     rt::shim::yield_now();
+                }
+            }
+            Op::Repeat { times, body } => {
+                for i in 0..*times {
+                    self.cycle = i;
+                    for o in body {
+                        self.exec_op(o);
+                    }
+                }
+            }
+            Op::Sample => {
+                let c = self.cycle;
+                let b = rt::galloc::live_bytes();
+                FINAL.with(|f| f.borrow_mut().samples.push((c, b)));
+                if std::env::var_os("VERIF_DEBUG").is_some() {
+                    let mut m: BTreeMap<&'static str, (usize, usize)> = BTreeMap::new();
+                    rt::with(|r| {
+                        for b in r.live.borrow().values() {
+                            let e = m.entry(rt::state::short_ty(b.ty)).or_default();
+                            e.0 += 1;
+                            e.1 += b.len;
+                        }
+                        eprintln!("task {} cycle {} live {} seam {:?} epoch_started {} completed {}", r.cur.get(), c, b, m, r.probes[6].get(), r.probes[7].get());
+                    });
                 }
             }
         }
@@ -497,6 +528,20 @@ impl Ctx {
         if quota == 0 {
             return;
         }
+        // into_single may legitimately have failed (a clone handed to another thread is
+        // still alive): fall back to the entry point that does not need a single consumer
+        let plain_uni = self.handles.get(&h).map(|x| x.k.is_plain_uni()).unwrap_or(false);
+        let rapi = if plain_uni {
+            rapi
+        } else {
+            match rapi {
+                RecvApi::TryRecvView => RecvApi::TryRecv,
+                RecvApi::RecvView => RecvApi::Recv,
+                RecvApi::IterWith => RecvApi::Iter,
+                RecvApi::TryIterWith => RecvApi::TryIter,
+                other => other,
+            }
+        };
         match rapi {
             RecvApi::Iter | RecvApi::IterWith => {
                 let hd = self.handles.remove(&h).unwrap();
@@ -968,6 +1013,11 @@ impl<'a> Future for SendFut<'a> {
                         continue;
                     }
                     self.cur = Some(b);
+                    if self.max_retry != UNLIMITED {
+                        // a bounded sender does not wait to be woken: it polls again
+                        futures::task::current().notify();
+                        rt::shim::yield_now();
+                    }
                     return Ok(Async::NotReady);
                 }
                 Err(e) => {
@@ -1122,7 +1172,13 @@ fn finish() {
         rt::with(|r| {
             f.seam_bytes_after = r.seam_live_bytes.get();
             f.seam_blocks_after = r.seam_live_blocks.get();
+            f.seam_survivors = r.live.borrow().values().map(|b| (rt::state::short_ty(b.ty).to_string(), b.len)).collect();
         });
+        if f.live_blocks_after != 0 {
+            for sz in rt::galloc::survivors() {
+                f.seam_survivors.push((format!("heap block of {} bytes", sz), sz));
+            }
+        }
         f.teardown_done = true;
     });
     COMPLETED.with(|c| c.set(true));
@@ -1338,6 +1394,9 @@ fn prepare(scn: &Scenario, cfg: &SchedCfg) {
     });
     CURRENT.with(|c| *c.borrow_mut() = Some(sh));
     rt::galloc::reset_counts();
+    if let Some(sz) = std::env::var("VERIF_TRACE_ALLOC").ok().and_then(|s| s.parse().ok()) {
+        rt::galloc::trace_size(sz);
+    }
     rt::with(|r| {
         r.reset(cfg.seed ^ 0xFA17);
         r.weak_cas_rate.set(scn.weak_cas_rate);
@@ -1348,6 +1407,7 @@ fn prepare(scn: &Scenario, cfg: &SchedCfg) {
             r.trap_len.set(len);
         }
         payload::reset(r.exec_id.get(), scn.slow_clone, scn.slow_view);
+        r.trace.set(std::env::var_os("VERIF_TRACE").is_some());
         r.active.set(true);
     });
     rt::galloc::set_quarantine(scn.quarantine);
